@@ -201,6 +201,58 @@ class fuse_slice__slice_int:
                 yield {"a": a, "b": b}
 
 
+def _fuse_tuple(rank):
+    tys = "tup:" + ",".join(["slice"] * rank)
+
+    @contract(f"{UTILS}::fuse_slice", spec=f"tuple{rank}", props=["C13", "C25"])
+    class fuse_slice__tuple:
+        """tuples of slices (a region and a block index, as store composes them) are fused axis by axis: on every axis the
+        result selects what b's slice selects from what a's slice selects, or the helper refuses (NotImplementedError)"""
+        params = {"a": tys, "b": tys}
+        ghosts = {"n": "int", "k": "int"}
+        result = tys
+
+        def _axes(t):
+            from pyvc.spec import TupV
+            return list(t.items) if isinstance(t, TupV) else list(t)
+
+        def requires(a, b):
+            return S.And(*[S.step_ok(x) for x in fuse_slice__tuple._axes(a) + fuse_slice__tuple._axes(b)])
+
+        raises = {"NotImplementedError": lambda a, b: S.Or(*[S.Not(nonneg_slice(x)) for x in
+                                                              fuse_slice__tuple._axes(a) + fuse_slice__tuple._axes(b)])}
+
+        def ensures(result, a, b, n, k):
+            out = {}
+            for d, (r, x, y) in enumerate(zip(fuse_slice__tuple._axes(result), fuse_slice__tuple._axes(a), fuse_slice__tuple._axes(b))):
+                for name, cl in composed(r, x, y, n, k).items():
+                    out[f"axis{d}-{name}"] = cl
+                out[f"axis{d}-step-ok"] = S.step_ok(r)
+            return out
+
+        def ghost_domain(a, b):
+            return {"n": range(0, 8), "k": range(0, 8)}
+
+        def domain(tier, rng):
+            vals = [None, 0, 1, 3, 7]
+            steps = [None, 1, 2]
+            sl = list(small_slices(tier, vals, steps)) + [slice(-2, None), slice(None, None, -1)]
+            if rank == 1:
+                for x in sl:
+                    for y in sl:
+                        yield {"a": (x,), "b": (y,)}
+            else:
+                for _ in range(3000 if tier == "quick" else 40000):
+                    yield {"a": tuple(rng.choice(sl) for _ in range(rank)), "b": tuple(rng.choice(sl) for _ in range(rank))}
+
+    fuse_slice__tuple.__name__ = f"fuse_slice__tuple{rank}"
+    return fuse_slice__tuple
+
+
+FST1 = _fuse_tuple(1)
+FST2 = _fuse_tuple(2)
+
+
 @contract(f"{BASIC}::_compose_slices", props=["C13", "C24", "C02"])
 class compose_slices:
     params = {"outer_slice": "slice", "inner_slice": "slice", "dim_size": "int"}
